@@ -1,4 +1,4 @@
-"""C12 k-means: predict is an arg-min over the squared Euclidean distances to the stored centroids (one clause only)."""
+"""C12 k-means: predict is an arg-min over squared Euclidean distances; BBD tree reads rows through its index table."""
 from sa import guards
 from sa.e1 import BodyCtx
 from sa.mir import AnchorError
@@ -7,16 +7,19 @@ from sa import flow
 
 LEVEL = "other"
 EXPLANATION = (
-    "ONE clause of the statement is decided: 'predicting assigns every row to a centroid at minimal Euclidean distance'. Rules "
+    "Structural clauses only. (A) 'predicting assigns every row to a centroid at minimal Euclidean distance'. Rules "
     "on the MIR of KMeans::predict (arg-min structure): (1) the compared quantity is Euclidian::squared_distance(row, "
     "self.centroids[j]) where `row` is the buffer filled from input row i (copy_row_as_vec(i, row)) and j the centroid loop "
     "variable; (2) the running minimum starts from max_value()/infinity() or a computed distance and is replaced exactly on "
     "the edge asserting dist < running minimum (or <=), together with the recorded cluster index, which is set to the same j; "
-    "(3) the value stored for row i is the recorded index of that same row iteration. The centroid/mean identities of fit, "
+    "(3) the value stored for row i is the recorded index of that same row iteration. (B) In BBDTree::build_node every row of "
+    "the data argument is read as index[position] - the tree permutes self.index while splitting, so a read at a raw position "
+    "of begin..end attaches another row's coordinates to the node (wrong sums/boxes for the tree-accelerated assignment). "
+    "(C) Parameter builders change only their own field. The centroid/mean identities of fit, "
     "the cluster sizes and the agreement of the tree-accelerated assignment with exhaustive search are numerical/geometric and "
     "NOT decided."
 )
-TECHNIQUE = "static analysis of rustc MIR: arg-min structure rule (gate + provenance) on KMeans::predict"
+TECHNIQUE = "static analysis of rustc MIR: arg-min structure rule (gate + provenance) on KMeans::predict, index-indirection provenance rule on BBDTree::build_node, builder field-preservation rule"
 
 
 def run(ck, prog):
@@ -108,3 +111,56 @@ def run(ck, prog):
     from sa.builders import check_builders
     check_builders(ck, prog, r"^cluster::kmeans::KMeansParameters$")
     ck.floor("E2-builder", 2)
+
+
+# ------------------------------------------------------------------ BBD tree: rows are reached through the permuted index table
+_run_pre_indirection = run
+ROW_READS = ("BaseMatrix::get", "BaseMatrix::get_row", "BaseMatrix::get_row_as_vec", "BaseMatrix::copy_row_as_vec")
+
+
+def _is_position(t):
+    """positively identified raw position: a Range loop variable or arithmetic on the begin/end arguments, with no
+    look-up through self.index"""
+    has_index = any(s[0] == "field" and s[2] == "index" for s in subterms(t))
+    if has_index:
+        return False
+    for s in subterms(t):
+        if s[0] == "agg" and s[1].endswith(("Range::Range", "RangeInclusive::new")):
+            return True
+        if s[0] == "call" and s[1].endswith("RangeInclusive::<Idx>::new"):
+            return True
+    return t[0] == "arg" or (t[0] == "bin" and all(x[0] in ("arg", "int") for x in t[2:4]))
+
+
+def index_indirection(ck, prog):
+    rule, inst = "E2-indirection", "BBDTree reads data rows through self.index"
+    n = 0
+    for fn in (r"^algorithm::neighbour::bbd_tree::BBDTree::<T>::build_node$",):
+        try:
+            b = prog.one(fn)
+        except AnchorError as e:
+            ck.violation(rule, inst, fn, "", expected="anchor exists", found=f"anchor vanished: {e}")
+            continue
+        for bd in [b] + prog.closures_of.get(b.path, []):
+            rs = Resolver(bd)
+            for bb, t in bd.calls():
+                f = t.get("f")
+                if not (f and f["path"].endswith(ROW_READS)) or len(t["args"]) < 2:
+                    continue
+                base = rs.operand(t["args"][0])
+                if not any(a[0] in ("arg", "upvar") for a in alts(base)):
+                    continue                       # a local matrix, not the data argument
+                row = rs.operand(t["args"][1])
+                n += 1
+                if _is_position(row):
+                    ck.violation(rule, inst, bd.path, bd.where(bb), ordinal=n,
+                                 expected="the row read is index[position]: the tree permutes self.index, positions begin..end are not row numbers",
+                                 found=f"row `{render(row)[:80]}` is a raw position (no look-up through self.index)")
+                else:
+                    ck.ok(rule, inst, bd.path, bd.where(bb), f"row {render(row)[:80]}")
+    ck.floor(rule, 1)
+
+
+def run(ck, prog):
+    _run_pre_indirection(ck, prog)
+    index_indirection(ck, prog)
